@@ -640,7 +640,7 @@ func (p *c05Parser) value() (string, error) {
 func init() {
 	mc.Register(&mc.Check{
 		ID: "C05",
-		Rule: "every combination of 16 shapes (arrays, dictionaries and structs nested up to depth 3, and optional-wrapped ones: [T]?, {K: V}?, S?, [T]??, [[T]?], structs with optional fields, mutated through force-unwrap) x sizes {0, 1, 2, inline-1, inline, split-1, split} (atree thresholds measured per shape at run time) x 17 copy forms (let, argument+return, struct field, array append, dictionary insert, optional, dereference, save+copy, save+load, save+borrow, copy / borrow / load+save in a later transaction, and mutation of the temporary returned by copy<T>() or by a function) x mutated side x 3-5 mutations per shape at depth 1..3 x access mode (direct, reference taken before the copy, reference taken after), both engines; the checker decides which combinations are programs (rejections counted). Oracle: after the mutation every side that was not mutated prints what the original printed before the copy (order-insensitive for dictionaries and fields). Non-trivial = accepted case in which the mutated side visibly changed.",
+		Rule: "every combination of 20 shapes (incl. 4 whose elements are too large to inline in a one-element container: [Int] / [UInt] of 2^4096+i, {UInt64: UInt}, [String] of ~1 KB strings; a run-time failure of an accepted program is a violation; arrays, dictionaries and structs nested up to depth 3, and optional-wrapped ones: [T]?, {K: V}?, S?, [T]??, [[T]?], structs with optional fields, mutated through force-unwrap) x sizes {0, 1, 2, inline-1, inline, split-1, split} (atree thresholds measured per shape at run time) x 17 copy forms (let, argument+return, struct field, array append, dictionary insert, optional, dereference, save+copy, save+load, save+borrow, copy / borrow / load+save in a later transaction, and mutation of the temporary returned by copy<T>() or by a function) x mutated side x 3-5 mutations per shape at depth 1..3 x access mode (direct, reference taken before the copy, reference taken after), both engines; the checker decides which combinations are programs (rejections counted). Oracle: after the mutation every side that was not mutated prints what the original printed before the copy (order-insensitive for dictionaries and fields). Non-trivial = accepted case in which the mutated side visibly changed.",
 		Assumptions: []string{
 			"values are observed through their logged String() form, parsed and canonicalised (dictionary entries and struct fields sorted)",
 			"whether a particular mutation syntax mutates in place is not judged; only independence of the other side is",
